@@ -1,5 +1,6 @@
 """C03 — circuit optimisation never changes what a program computes."""
 import copy
+import math
 from fractions import Fraction
 
 import numpy as np
@@ -402,10 +403,107 @@ def search(ctx):
             continue
         if max(np.abs(o1[0] - o2[0]).max(), np.abs(o1[1] - o2[1]).max()) > 1e-8:
             ctx.counterexample("compile-optimize:changes-state", "compile(optimize=True) changes the computed state", data)
+    search_matrix_merge(ctx)
+
+
+# ---- single-mode operations whose first parameter is a MATRIX: Decomposition.merge (U2 @ U1) and Channel.merge (np.dot) ----------------
+def _mat_cmd(rng, n):
+    kind = rng.choice(["GaussianTransform", "GaussianTransform", "Interferometer", "PassiveChannel", "Rgate", "Sgate", "BSgate", "LossChannel"])
+    m = rng.randrange(n)
+    if kind == "GaussianTransform":
+        # 2x2 symplectic = rotation . squeeze . rotation (non-commuting family: the order of the product matters)
+        a, b, r = rng.uniform(-3, 3), rng.uniform(-3, 3), rng.uniform(-0.6, 0.6)
+        R = lambda t: np.array([[math.cos(t), -math.sin(t)], [math.sin(t), math.cos(t)]])
+        S = R(a) @ np.diag([math.exp(-r), math.exp(r)]) @ R(b)
+        return [kind, np.round(S, 12).tolist(), [m]]
+    if kind == "Interferometer":
+        t = rng.choice([0.0, math.pi, 0.5, -1.25, 2.0])
+        return [kind, [[[math.cos(t), math.sin(t)]]], [m]]
+    if kind == "PassiveChannel":
+        t, a = rng.choice([1.0, 0.5, 0.8, 0.3]), rng.choice([0.0, 0.7, -2.0, math.pi])
+        return [kind, [[[t * math.cos(a), t * math.sin(a)]]], [m]]
+    if kind == "BSgate":
+        if n < 2:
+            return ["Rgate", [0.3], [m]]
+        return [kind, [round(rng.uniform(0.2, 1.2), 3), round(rng.uniform(-1, 1), 3)], rng.sample(range(n), 2)]
+    if kind == "LossChannel":
+        return [kind, [rng.choice([0.5, 0.8])], [m]]
+    return [kind, [round(rng.uniform(-0.6, 0.6), 3)] + ([round(rng.uniform(-1, 1), 3)] if kind == "Sgate" else []), [m]]
+
+
+def _mat_op(name, par):
+    if name == "GaussianTransform":
+        return ops.GaussianTransform(np.array(par, dtype=float))
+    if name in ("Interferometer", "PassiveChannel"):
+        M = np.array([[complex(*z) for z in row] for row in par])
+        return getattr(ops, name)(M)
+    return getattr(ops, name)(*par)
+
+
+def _mat_build(spec):
+    prog = sf.Program(spec["n"])
+    with prog.context as q:
+        for name, par, modes in spec["cmds"]:
+            _mat_op(name, par) | tuple(q[m] for m in modes)
+    return prog
+
+
+def mat_merge_check(spec):
+    """(signature, text) or None: original vs optimised program on the Gaussian backend; a pair that multiplies to the identity must vanish."""
+    import warnings
+    prog = _mat_build(spec)
+    snap = snapshot(prog)
+    mats0 = [np.array(c.op.p[0], dtype=complex).copy() if c.op.__class__.__name__ in ("GaussianTransform", "Interferometer", "PassiveChannel") else None for c in prog.circuit]
+    with warnings.catch_warnings():
+        warnings.simplefilter("ignore")
+        opt = prog.optimize()
+    if snapshot(prog) != snap or any(m is not None and not np.array_equal(np.array(c.op.p[0], dtype=complex), m) for c, m in zip(prog.circuit, mats0)):
+        return "optimize:matrix-op:mutates-original", "optimize() modified the original program's matrix parameters"
+    with warnings.catch_warnings():
+        warnings.simplefilter("ignore")
+        o1 = bc.gauss_obs(sf.Engine("gaussian").run(prog).state)
+        o2 = bc.gauss_obs(sf.Engine("gaussian").run(opt).state)
+    d = max(np.abs(o1[0] - o2[0]).max(), np.abs(o1[1] - o2[1]).max())
+    if d > 1e-7:
+        fams = "+".join(sorted({c[0] for c in spec["cmds"] if c[0] in ("GaussianTransform", "Interferometer", "PassiveChannel")}))
+        return "optimize:changes-state:" + fams, "optimised program computes a different Gaussian state (max |delta| = %.3g)" % d
+    return None, len(opt.circuit) < len(prog.circuit)
+
+
+def search_matrix_merge(ctx):
+    rng = ctx.rng
+    for it in range(ctx.budget(60, 600)):
+        n = rng.randint(1, 3)
+        pre = [["Sgate", [0.4, 0.3 * i], [i]] for i in range(n)] + [["Rgate", [0.7 + i], [i]] for i in range(n)] + ([["BSgate", [0.6, 0.4], [0, n - 1]]] if n > 1 else [])
+        cmds = [_mat_cmd(rng, n) for _ in range(rng.randint(2, 7))]
+        if it % 4 == 0:
+            # an exact inverse pair on one mode, possibly separated by commands on other modes
+            m = rng.randrange(n)
+            c = _mat_cmd(rng, n)
+            while c[0] != "GaussianTransform":
+                c = _mat_cmd(rng, n)
+            c[2] = [m]
+            inv = ["GaussianTransform", np.round(np.linalg.inv(np.array(c[1])), 12).tolist(), [m]]
+            between = [x for x in (_mat_cmd(rng, n) for _ in range(2)) if m not in x[2]]
+            cmds = cmds[:2] + [c] + between + [inv] + cmds[2:]
+        spec = {"n": n, "cmds": pre + cmds}
+        data = {"check": "matmerge", "spec": spec}
+        try:
+            r = mat_merge_check(spec)
+        except Exception as e:
+            ctx.counterexample("optimize:matrix-op:raises:%s" % type(e).__name__, "optimising / running %s raised %r" % (spec, e), data)
+            continue
+        ctx.case(spec, nontrivial=bool(r[1]) if r[0] is None else True, bucket="matrix-merge")
+        if r[0] is not None:
+            ctx.counterexample(r[0], r[1], data)
 
 
 def replay(ctx, data):
     d = data["data"]
+    if d.get("check") == "matmerge":
+        r = mat_merge_check(d["spec"])
+        print("matrix-parameter merge:", r)
+        return r[0] is not None
     circ = {"n": d["circ"]["n"], "cmds": [deser(x) for x in d["circ"]["cmds"]]}
     prog = build(circ)
     import warnings
